@@ -1926,6 +1926,12 @@ void ScriptVariable::operator/=(const ScriptVariable& value)
             throw ScriptVariableErrors::DivideByZero();
         }
 
+        if (value.m_data.long64Value == -1) {
+            // the quotient of the most negative value wraps (the machine division would trap)
+            m_data.long64Value = (int64_t)(0 - (uint64_t)m_data.long64Value);
+            break;
+        }
+
         m_data.long64Value = m_data.long64Value / value.m_data.long64Value;
         break;
 
@@ -2022,6 +2028,12 @@ void ScriptVariable::operator%=(const ScriptVariable& value)
     case uint32_t(variableType_e::Integer + variableType_e::Integer * variableType_e::Max): // ( int ) % ( int )
         if (value.m_data.long64Value == 0) {
             throw ScriptVariableErrors::DivideByZero();
+        }
+
+        if (value.m_data.long64Value == -1) {
+            // x % -1 is 0 for every x (the machine division would trap on the most negative value)
+            m_data.long64Value = 0;
+            break;
         }
 
         m_data.long64Value = m_data.long64Value % value.m_data.long64Value;
